@@ -44,6 +44,23 @@ func realMain() (code int) {
 		return 2
 	}
 	id := os.Args[1]
+	if id == "selftest" {
+		if len(os.Args) < 3 {
+			return 2
+		}
+		root := envOr("VERIF_ROOT", "/verif")
+		repo := envOr("VERIF_REPO", "/repo/utils")
+		allOK := true
+		for _, p := range os.Args[2:] {
+			fmt.Println("selftest", p)
+			_, ok := runSelftest(root, repo, p, 6, true)
+			allOK = allOK && ok
+		}
+		if allOK {
+			return 0
+		}
+		return 1
+	}
 	if id == "list" {
 		var ids []string
 		for k := range registry {
@@ -59,11 +76,11 @@ func realMain() (code int) {
 	replay := fs.String("replay", "", "replay file written by an earlier run (its key is re-checked)")
 	var overlays multiFlag
 	fs.Var(&overlays, "overlay", "path=replacementfile (analyse the tree with path replaced in memory)")
-	noEvidence := fs.Bool("no-evidence", false, "do not write evidence (used by self-validation children)")
+	seedFile := fs.String("seed-file", "", "self-validation child: seed file")
+	seedName := fs.String("seed-name", "", "self-validation child: seed name")
 	if err := fs.Parse(os.Args[2:]); err != nil {
 		return 2
 	}
-	_ = noEvidence
 	p := registry[id]
 	if p == nil {
 		fmt.Fprintf(os.Stderr, "unknown property %q\n", id)
@@ -103,6 +120,24 @@ func realMain() (code int) {
 			path = filepath.Join(repo, path)
 		}
 		ov[path] = b
+	}
+	mutantMode := false
+	if *seedFile != "" {
+		sd, err := seedByName(root, *seedFile, *seedName)
+		if err != nil {
+			fmt.Fprintln(os.Stderr, err)
+			return 2
+		}
+		o, ok, err := overlayFor(repo, sd)
+		if err != nil || !ok {
+			fmt.Fprintln(os.Stderr, "seed does not apply", err)
+			return 2
+		}
+		for k, v := range o {
+			ov[k] = v
+		}
+		mutantMode = true
+		*tier = "quick"
 	}
 	configs := []string{"linux/amd64"}
 	if *tier == "thorough" {
@@ -145,6 +180,17 @@ func realMain() (code int) {
 			}
 		}
 		meta.configs = append(meta.configs, cf)
+	}
+	if mutantMode {
+		return finishMutant(main)
+	}
+	if *tier == "thorough" && *only == "" {
+		res, _ := runSelftest(root, repo, id, 6, false)
+		sum := map[string]int{}
+		for _, r := range res {
+			sum[r.Outcome]++
+		}
+		meta.selfval = map[string]any{"note": "seeded one-construct mutants must be reported by the expected rule, behaviour-preserving refactors must stay silent; applied in memory (overlay), one process each; the outcome describes the checker, not the property, and does not change the exit status", "summary": sum, "results": res}
 	}
 	return finish(main, meta)
 }
